@@ -90,6 +90,34 @@ def universes(bare):
     return u
 
 
+def expander_match_close(s, i):
+    depth = 0
+    for j in range(i, len(s)):
+        if s[j] in '([{':
+            depth += 1
+        elif s[j] in ')]}':
+            depth -= 1
+            if depth == 0:
+                return j
+    raise ValueError('unbalanced')
+
+
+def split_top_commas(s):
+    out, cur, depth = [], '', 0
+    for ch in s:
+        if ch in '([{':
+            depth += 1
+        elif ch in ')]}':
+            depth -= 1
+        if ch == ',' and depth == 0:
+            out.append(cur.strip()); cur = ''
+        else:
+            cur += ch
+    if cur.strip():
+        out.append(cur.strip())
+    return out
+
+
 def outcome(eng, text, sym, raw=False):
     try:
         di = synmodel.derive_input(eng, text, sym)
@@ -144,11 +172,26 @@ def shard_body(ctx, sh):
         tb = item.replace('{ATTRS}', write_attrs(instrs, sps[k]))
         # an `allow_unknown` marker on the type (which switches bare attributes to the non-barking parser mode) must not matter either
         au = z3.Int('au')
-        eng.assume(z3.And(au >= 0, au <= 2))
-        auk = eng.decide([(i, au == i) for i in range(3)])
-        if auk:
+        hi = 5 if item.startswith('{ATTRS}') else 2
+        eng.assume(z3.And(au >= 0, au <= hi))
+        auk = eng.decide([(i, au == i) for i in range(hi + 1)])
+        if auk in (1, 2):
             pre = '#[o2o(allow_unknown)] '
             ta, tb = (pre + ta, pre + tb) if auk == 1 else (ta, pre + tb)
+        elif auk:
+            # the marker written INSIDE the first #[o2o(..)] list of the re-spelled form (front / end / after its first element); type level only
+            pre = '#[o2o(allow_unknown)] '
+            m = re.search(r'#\[o2o\(', tb)
+            if m and item.startswith('{ATTRS}'):
+                close = expander_match_close(tb, m.end() - 1)
+                inner = tb[m.end():close]
+                parts = split_top_commas(inner)
+                pos = {3: 0, 4: len(parts), 5: 1 if len(parts) > 1 else len(parts)}[auk]
+                parts.insert(pos, 'allow_unknown')
+                tb = tb[:m.end()] + ', '.join(parts) + tb[close:]
+                ta = pre + ta
+            else:
+                ta, tb = pre + ta, pre + tb
         eng.aux['texts'] = (ta, tb, k)
         a = outcome(eng, ta, sym)
         b = outcome(eng, tb, sym)
